@@ -598,6 +598,7 @@ func checkC16(w *World, r *Report) {
 	checkCompiledImmutable(w, r)
 	checkLoadedTreeIsParsed(w, r)
 	checkCompileUsesOwnSource(w, r)
+	checkReaderAcceptsWhatWriterWrites(w, r)
 }
 
 func (w *World) compareWire(r *Report, wfd, rfd *ast.FuncDecl, wo, ro []wireOp, helper bool, helperPairOK bool) bool {
@@ -1629,4 +1630,79 @@ func checkCompileUsesOwnSource(w *World, r *Report) {
 		}
 	}
 	r.floor("Template methods returning a compiled form", n, 1)
+}
+
+// checkReaderAcceptsWhatWriterWrites — R16.11: the reader does not judge content.  In the
+// functions reachable from DeserializeCompiledTemplate, no return of a surely non-nil error is
+// control dependent on a call that inspects a decoded string (the Name / Source fields of the
+// compiled template, or a string read from the input): the writer stores any byte string, so a
+// "sanity check" on the text — valid UTF-8, no NUL, a maximum line length — makes templates that
+// compile fine fail to load.
+func checkReaderAcceptsWhatWriterWrites(w *World, r *Report) {
+	root := w.tryFn("DeserializeCompiledTemplate")
+	if root == nil {
+		return
+	}
+	cut := map[*ssa.Function]bool{}
+	if m := w.tryMethod("Parser", "Parse"); m != nil {
+		cut[w.ssaFunc(m)] = true
+	}
+	n := 0
+	decodedString := func(v ssa.Value) bool {
+		v = unspill(v)
+		if b, ok := v.Type().Underlying().(*types.Basic); !ok || b.Kind() != types.String {
+			return false
+		}
+		if t, f := originField(v, 0); t == "CompiledTemplate" && (f == "Name" || f == "Source") {
+			return true
+		}
+		if ex, ok := v.(*ssa.Extract); ok {
+			if c, ok := ex.Tuple.(*ssa.Call); ok {
+				if g := c.Call.StaticCallee(); g != nil && isTwigFn(g) && strings.HasPrefix(strings.ToLower(g.Name()), "read") {
+					return true
+				}
+			}
+		}
+		return false
+	}
+	for fn := range w.reachableFromCut([]*ssa.Function{w.ssaFunc(root)}, cut) {
+		if !isTwigFn(fn) {
+			continue
+		}
+		instrsOf(fn, func(in ssa.Instruction) {
+			ret, ok := in.(*ssa.Return)
+			if !ok {
+				return
+			}
+			res := retResults(ret)
+			if len(res) == 0 || !errorSurelyNonNil(res[len(res)-1], ret.Block()) {
+				return
+			}
+			n++
+			bad := ""
+			for _, c := range controllingConds(in) {
+				var facts []condFact
+				expandCond(c, true, &facts, 0)
+				expandCond(c, false, &facts, 0)
+				for _, cf := range facts {
+					call, ok := cf.v.(*ssa.Call)
+					if !ok {
+						continue
+					}
+					for _, a := range call.Call.Args {
+						if decodedString(a) {
+							bad = call.Call.String()
+						}
+					}
+				}
+			}
+			construct := "an error return does not depend on what a decoded string contains"
+			if bad != "" {
+				r.bad("R16.11", ssaName(fn), construct, w.posOf(ret.Pos()), "the reader rejects the data depending on "+bad+" — a judgement about the text of a name or source the writer stores without looking at it: a template whose source has such bytes compiles and saves, and then cannot be loaded")
+			} else {
+				r.ok("R16.11", ssaName(fn), construct, w.posOf(ret.Pos()), "controlled by read errors, lengths and the version only", false)
+			}
+		})
+	}
+	r.floor("error returns on the deserialising side", n, 3)
 }
